@@ -42,7 +42,8 @@ Proof.
   destruct (fresh_ok s (ONewVec h c rn i)) eqn:F; [|discriminate].
   destruct (newvec_shape _ _ _ _ _ _ Hs) as (l & n & d & Hnone & Hheap).
   rewrite Hheap in Hg. rewrite aget_app_other in Hg by exact Hne.
-  unfold fresh_ok in F. cbn [new_sids forallb] in F. rewrite andb_true_r in F.
+  unfold fresh_ok in F. apply andb_true_iff in F. destruct F as [F _].
+  cbn [new_sids forallb] in F. rewrite andb_true_r in F.
   apply orb_true_iff in F. destruct F as [F|F].
   - apply Nat.eqb_eq in F. contradiction.
   - apply negb_true_iff in F. apply mem_false in F.
@@ -64,4 +65,84 @@ Proof.
   - eapply empty_storage_never_refused; [exact Hget|exact E].
   - eapply sole_owner_never_refused; [exact Hinv'|exact Hget|].
     intros h' o' Hne Hg. cbn [sid]. eapply derived_vector_sole_owner; eauto.
+Qed.
+
+(* ---- the columns of every new table own their storage too ------------------------------------ *)
+Lemma alloc_cols_inv built : forall s hs sids s1,
+  alloc_cols s built hs sids = Some s1 ->
+  forall h' o', aget (heap s1) h' = Some o' ->
+    aget (heap s) h' = Some o' \/
+    exists k i, nth_error hs k = Some h' /\ nth_error sids k = Some i /\ sid_of o' = i.
+Proof.
+  induction built as [|[[l n] d] bt IH]; intros s hs sids s1 H h' o' Hg.
+  - destruct hs; destruct sids; cbn [alloc_cols] in H; try discriminate. inversion H. subst. left. exact Hg.
+  - destruct hs as [|h ht]; [discriminate|]. destruct sids as [|i it]; [discriminate|].
+    cbn [alloc_cols] in H. destruct (aget (heap s) h) eqn:Hn; [discriminate|].
+    destruct (IH _ _ _ _ H h' o' Hg) as [Hold|(k & j & Hk & Hj & Hs)].
+    + cbn [heap] in Hold. destruct (Nat.eq_dec h' h) as [->|Hne].
+      * rewrite (aget_app_none _ _ _ Hn) in Hold. inversion Hold. subst o'.
+        right. exists 0, i. repeat split; reflexivity.
+      * rewrite aget_app_other in Hold by exact Hne. left. exact Hold.
+    + right. exists (S k), j. repeat split; assumption.
+Qed.
+
+Lemma distinct_nz_head x t y : distinct_nz (x :: t) = true -> In y t -> x <> 0 -> x <> y.
+Proof.
+  cbn [distinct_nz]. intros H Hy Hx E. subst y. apply andb_true_iff in H. destruct H as [H _].
+  apply orb_true_iff in H. destruct H as [H|H].
+  - apply Nat.eqb_eq in H. contradiction.
+  - apply negb_true_iff in H. apply mem_false in H. contradiction.
+Qed.
+
+Lemma distinct_nz_nth l : forall a b i j,
+  distinct_nz l = true -> nth_error l a = Some i -> nth_error l b = Some j -> a <> b -> i <> 0 -> i <> j.
+Proof.
+  induction l as [|x t IH]; intros a b i j H Ha Hb Hab Hi.
+  - destruct a; discriminate.
+  - pose proof H as H0. cbn [distinct_nz] in H. apply andb_true_iff in H. destruct H as [_ Ht].
+    destruct a as [|a], b as [|b]; cbn [nth_error] in Ha, Hb.
+    + contradiction.
+    + inversion Ha. subst x. eapply distinct_nz_head; [exact H0| |exact Hi]. eapply nth_error_In. exact Hb.
+    + inversion Hb. subst x. intros E. subst j.
+      assert (Hin : In i t) by (eapply nth_error_In; exact Ha).
+      cbn [distinct_nz] in H0. apply andb_true_iff in H0. destruct H0 as [H0 _].
+      apply orb_true_iff in H0. destruct H0 as [H0|H0].
+      * apply Nat.eqb_eq in H0. contradiction.
+      * apply negb_true_iff in H0. apply mem_false in H0. contradiction.
+    + eapply IH; eauto.
+Qed.
+
+Theorem derived_table_column_sole_owner s ht cs chs sids tsid' s' k h i :
+  step_d s (ONewTab ht cs chs sids tsid') = (s', Ok) ->
+  nth_error chs k = Some h -> nth_error sids k = Some i -> i <> EMPTY ->
+  forall h' o', h' <> h -> aget (heap s') h' = Some o' -> sid_of o' <> i.
+Proof.
+  intros Hs Hh Hi Hnz h' o' Hne Hg. unfold step_d in Hs.
+  destruct (fresh_ok s (ONewTab ht cs chs sids tsid')) eqn:F; [|discriminate].
+  unfold fresh_ok in F. apply andb_true_iff in F. destruct F as [Ffresh Fdist]. cbn [new_sids] in Ffresh, Fdist.
+  cbn [step] in Hs.
+  destruct (build_all s cs) as [built|]; [|discriminate].
+  destruct (negb (all_same_len built)); [discriminate|].
+  destruct (alloc_cols s built chs sids) as [s1|] eqn:E; [|discriminate].
+  destruct (aget (heap s1) ht) eqn:Hf; [discriminate|]. inversion Hs. subst s'. clear Hs. cbn [heap] in Hg.
+  assert (Hin_i : In i sids) by (eapply nth_error_In; exact Hi).
+  destruct (Nat.eq_dec h' ht) as [->|Hht].
+  - (* the table object itself *)
+    rewrite (aget_app_none _ _ _ Hf) in Hg. inversion Hg. subst o'. cbn [sid_of tsid].
+    intros Et. subst tsid'.
+    eapply (distinct_nz_nth (i :: sids) 0 (S k) i i Fdist); cbn [nth_error]; try reflexivity; try exact Hi; auto.
+  - rewrite aget_app_other in Hg by exact Hht.
+    destruct (alloc_cols_inv _ _ _ _ _ E _ _ Hg) as [Hold|(k' & j & Hk' & Hj & Hsid)].
+    + (* an object that existed before: its storage is in use, so [i] differs *)
+      cbn [forallb] in Ffresh. apply andb_true_iff in Ffresh. destruct Ffresh as [_ Ffresh].
+      rewrite forallb_forall in Ffresh. specialize (Ffresh i Hin_i).
+      apply orb_true_iff in Ffresh. destruct Ffresh as [Fz|Fz].
+      * apply Nat.eqb_eq in Fz. contradiction.
+      * apply negb_true_iff in Fz. apply mem_false in Fz. intros Eq. apply Fz. rewrite <- Eq.
+        eapply in_use_spec. exact Hold.
+    + (* another new column of the same table *)
+      rewrite Hsid. intros Eq.
+      assert (Hkk : k' <> k) by (intros ->; rewrite Hh in Hk'; inversion Hk'; subst; contradiction).
+      cbn [distinct_nz] in Fdist. apply andb_true_iff in Fdist. destruct Fdist as [_ Fdist].
+      eapply (distinct_nz_nth sids k k' i j Fdist Hi Hj); auto.
 Qed.
